@@ -120,6 +120,7 @@ def run(F, res, tier):
             "syntax::ast::Variant", "syntax::ast::VariantField"}
     res.ob("R3", "binder-arms", "classify_name has an arm for every construct whose Name child declares something (incl. the spread binder `..rest`)",
            want <= arms, where=cn.loc(), how="arms: %s" % sorted(a.rsplit("::", 1)[-1] for a in arms))
+    search_scope_rules(F, res)
     # ---- R4
     for p, ty in (("ide::ide::references::references", "HashSet"), ("ide::ide::highlight_related::highlight_related", "HashSet")):
         f = F.fn(p)
@@ -130,3 +131,38 @@ def run(F, res, tier):
     calls = [FL.short(callee(t) or callee_def(t)) for b, t in hl.calls()]
     res.ob("R4", "highlight-same-search", "highlight_related runs the same usage search restricted to the current file (SearchScope::single_file)",
            "SearchScope::single_file" in calls and "FindUsages::all" in calls, where=hl.loc(), how=str([c for c in calls if "Search" in c or "FindUsages" in c]))
+
+
+def search_scope_rules(F, res):
+    """R5: the usage search looks at every module file of every package (no package or file is filtered out)"""
+    pg = F.fn("ide::def::search::SearchScope::package_graph")
+    d = FL.Defs(pg)
+    ins = [(b, t) for b, t in pg.calls() if FL.short(callee(t) or callee_def(t)).endswith("::insert")]
+    ok = bool(ins)
+    sigs = []
+    for b, t in ins:
+        sig = FL.guard_signature(F, pg, b, d)
+        sigs.append(sig)
+        if not all(("::next(" in g and "['Some']" in g) for g in sig):
+            ok = False
+    res.ob("R5", "package_graph/all-files", "SearchScope::package_graph inserts every module file of every package of the graph (the only conditions on the way are the two loops)",
+           ok, where=pg.loc(), how="conditions guarding the insert: %s" % sigs)
+    calls = [FL.short(callee(t) or callee_def(t)) for b, t in pg.calls()]
+    res.ob("R5", "package_graph/iterates-graph", "it iterates db.package_graph() and each package's source root module files",
+           "PackageGraph::iter" in calls and "SourceRoot::module_files" in calls, where=pg.loc(), how=str([c for c in calls if "iter" in c or "files" in c]))
+    ss = F.fn("ide::def::search::Definition::search_scope") if "ide::def::search::Definition::search_scope" in F.fns else \
+        F.fn("ide::def::semantics::Definition::search_scope")
+    made = sorted({FL.short(callee(t) or callee_def(t)) for b, t in ss.calls() if FL.short(callee(t) or callee_def(t)).startswith("SearchScope::")})
+    dss = FL.Defs(ss)
+    single = [b for b, t in ss.calls() if FL.short(callee(t) or callee_def(t)) == "SearchScope::single_file"]
+    local_only = bool(single)
+    for b in single:
+        sig = FL.guard_signature(F, ss, b, dss)
+        if not any("['Local']" in g for g in sig):
+            local_only = False
+    res.ob("R5", "search_scope/whole-graph-unless-local", "a definition is searched in the whole package graph unless it is a local (then: its file)",
+           set(made) <= {"SearchScope::empty", "SearchScope::single_file", "SearchScope::package_graph"} and "SearchScope::package_graph" in made and local_only,
+           where=ss.loc(), how="scopes built: %s; single_file only for locals: %s" % (made, local_only))
+    sr = F.fn("ide::def::search::FindUsages::search")
+    base = any(FL.short(callee(t) or callee_def(t)) == "Definition::search_scope" for b, t in sr.calls())
+    res.ob("R5", "search/uses-definition-scope", "FindUsages::search scans Definition::search_scope", base, where=sr.loc(), how=str(base))
